@@ -47,12 +47,45 @@ def _reset_chain(ix, cls):
     return out
 
 
+
+def _probe_locals(fnode):
+    """locals bound exactly once to `getattr(self, 'G', d)` / `hasattr(self, 'G')`: a test on such a local is a test on the probe"""
+    stores = {}
+    for n in ast.walk(fnode):
+        if isinstance(n, ast.Name) and isinstance(n.ctx, ast.Store):
+            stores[n.id] = stores.get(n.id, 0) + 1
+    out = {}
+    for n in ast.walk(fnode):
+        if isinstance(n, ast.Assign) and len(n.targets) == 1 and isinstance(n.targets[0], ast.Name) and stores.get(n.targets[0].id) == 1 \
+                and isinstance(n.value, ast.Call) and isinstance(n.value.func, ast.Name) and n.value.func.id in ('getattr', 'hasattr') and len(n.value.args) >= 2 \
+                and isinstance(n.value.args[0], ast.Name) and n.value.args[0].id == 'self':
+            out[n.targets[0].id] = n.value
+    return out
+
+
+def _probe_test(fnode, test):
+    """the test with probe locals replaced by their probes (a copy)"""
+    import copy
+    pl = _probe_locals(fnode)
+    if not pl:
+        return test
+
+    class Sub(ast.NodeTransformer):
+        def visit_Name(self, n):
+            if isinstance(n.ctx, ast.Load) and n.id in pl:
+                return copy.deepcopy(pl[n.id])
+            return n
+    return Sub().visit(copy.deepcopy(test))
+
+
 def _guards(fnode):
     """attrs G for which fnode starts with ``if <self.G missing/None>: return`` before other work."""
     out = set()
     for st in fnode.body:
+        if isinstance(st, ast.Assign) and len(st.targets) == 1 and isinstance(st.targets[0], ast.Name) and st.targets[0].id in _probe_locals(fnode):
+            continue
         if isinstance(st, ast.If) and st.body and isinstance(st.body[-1], ast.Return):
-            for n in ast.walk(st.test):
+            for n in ast.walk(_probe_test(fnode, st.test)):
                 if isinstance(n, ast.Call) and isinstance(n.func, ast.Name) and n.func.id in ('getattr', 'hasattr') and len(n.args) >= 2:
                     if isinstance(n.args[0], ast.Name) and n.args[0].id == 'self' and isinstance(n.args[1], ast.Constant):
                         out.add(n.args[1].value)
@@ -346,7 +379,7 @@ def _under_existence_test(fnode, node, attr):
     q = parents.get(id(node))
     while q is not None and q is not fnode:
         if isinstance(q, ast.If) and any(child is s or any(child is x for x in ast.walk(s)) for s in q.body):
-            t = ast.unparse(q.test).replace(' ', '').replace('"', "'")
+            t = ast.unparse(_probe_test(fnode, q.test)).replace(' ', '').replace('"', "'")
             if t in ("getattr(self,'%s',None)isnotNone" % attr, "hasattr(self,'%s')" % attr):
                 return True
         child = q
@@ -366,8 +399,9 @@ def _positive_guards(fnode, node, initd):
     q = parents.get(id(node))
     while q is not None and q is not fnode:
         if isinstance(q, ast.If) and any(child is s or any(child is x for x in ast.walk(s)) for s in q.body):
-            t = ast.unparse(q.test).replace(' ', '').replace('"', "'")
-            for x in ast.walk(q.test):
+            qtest = _probe_test(fnode, q.test)
+            t = ast.unparse(qtest).replace(' ', '').replace('"', "'")
+            for x in ast.walk(qtest):
                 if isinstance(x, ast.Call) and isinstance(x.func, ast.Name) and x.func.id in ('getattr', 'hasattr') and len(x.args) >= 2 and isinstance(x.args[1], ast.Constant):
                     g = x.args[1].value
                     if t in ("getattr(self,'%s',None)isnotNone" % g, "hasattr(self,'%s')" % g, "getattr(self,'%s',None)!=None" % g):
